@@ -33,6 +33,8 @@ import (
 	tmtypes "github.com/cometbft/cometbft/types"
 	cryptocodec "github.com/cosmos/cosmos-sdk/crypto/codec"
 	sdk "github.com/cosmos/cosmos-sdk/types"
+	authtypes "github.com/cosmos/cosmos-sdk/x/auth/types"
+	govtypes "github.com/cosmos/cosmos-sdk/x/gov/types"
 	stakingtypes "github.com/cosmos/cosmos-sdk/x/staking/types"
 	"github.com/ethereum/go-ethereum/common"
 
@@ -67,6 +69,7 @@ type c06Oper struct {
 	HasUSD  bool   `json:"has_usd"`
 	Active  string `json:"active"` // LegacyDec raw (scaled by 10^18)
 	Total   string `json:"total"`
+	Self    string `json:"self"` // SelfUSDValue raw
 }
 
 type c06Step struct {
@@ -74,6 +77,10 @@ type c06Step struct {
 	EpochEnded  bool      `json:"epoch_ended"` // the dogfood epoch number advanced in this block's BeginBlock (read from x/epochs)
 	Marker      bool      `json:"marker"`
 	Max         int64     `json:"max"`
+	MinSelf     string    `json:"min_self"`     // dogfood params.MinSelfDelegation at EndBlock
+	AvsMinSelf  int64     `json:"avs_min_self"` // MinSelfDelegation of the dogfood AVS record (what the operator module's hook reads)
+	HookMin     string    `json:"hook_min"`     // dogfood params.MinSelfDelegation when this block's epoch hook ran (-1: no hook)
+	Fresh       bool      `json:"fresh"`        // the USD records are as the operator module's epoch hook of THIS block left them
 	Prev        []c06KV   `json:"prev"`
 	PrevTotal   string    `json:"prev_total"`
 	Opers       []c06Oper `json:"opers"`
@@ -121,7 +128,7 @@ func c06KVs(in *c06Intern, xs []c06KV) string {
 
 func (o c06Oper) coq(in *c06Intern) string {
 	return cApp("mkOper", in.name(o.Addr), cOpt(o.HasKey, in.name(o.Key)), cBool(o.HasOpt), cBool(o.OptedIn), cBool(o.Jailed),
-		cBool(o.HasUSD), cZstr(o.Active), cZstr(o.Total))
+		cBool(o.HasUSD), cZstr(o.Active), cZstr(o.Total), cZstr(o.Self))
 }
 
 func (s c06Step) coq(in *c06Intern) string {
@@ -133,7 +140,7 @@ func (s c06Step) coq(in *c06Intern) string {
 	for i, k := range s.NoRev {
 		nr[i] = in.name(k)
 	}
-	return cApp("mkStep", cBool(s.EpochEnded), cBool(s.Marker), cZ(s.Max), c06KVs(in, s.Prev), cZstr(s.PrevTotal), cList(os), cList(nr),
+	return cApp("mkStep", cBool(s.EpochEnded), cBool(s.Marker), cZ(s.Max), cZstr(s.MinSelf), cZ(s.AvsMinSelf), cZstr(s.HookMin), cBool(s.Fresh), c06KVs(in, s.Prev), cZstr(s.PrevTotal), cList(os), cList(nr),
 		cBool(s.Panicked), cZ(int64(s.Cmt)), c06KVs(in, s.Upd), c06KVs(in, s.After), cZstr(s.TotalAfter), c06KVs(in, s.StoredUpd), cBool(s.MarkerAfter))
 }
 
@@ -156,18 +163,22 @@ func (c c06Case) coq() string {
 // ---- harness state -------------------------------------------------------------------------------------------
 
 type c06H struct {
-	env     *Env
-	app     *exocoreapp.ExocoreApp
-	rng     *rand.Rand
-	w       *CaseWriter
-	chainID string
-	avsAddr string
-	pool    []keytypes.WrappedConsKey
-	nonce   uint64
+	env       *Env
+	app       *exocoreapp.ExocoreApp
+	rng       *rand.Rand
+	w         *CaseWriter
+	chainID   string
+	avsAddr   string
+	pool      []keytypes.WrappedConsKey
+	nonce     uint64
 	operators []sdk.AccAddress // the operators the operations of the current family address (genesis ones, or the large set)
-	epochID string
-	ended   bool // set by beginNext
-	dead    bool // BeginBlock panicked: the history stops here
+	epochID   string
+	ended     bool   // set by beginNext
+	hookMin   string // dogfood params.MinSelfDelegation right after BeginBlock, when the dogfood epoch ended in it
+	usdDirty  bool   // a USD record was written directly since this block's BeginBlock
+	authority string
+	paramBias bool // the params family: no direct USD writes, many MinSelfDelegation updates and self-stake changes
+	dead      bool // BeginBlock panicked: the history stops here
 	// block driver
 	real   bool
 	ctx    sdk.Context
@@ -225,7 +236,7 @@ func (h *c06H) opers(ctx sdk.Context) ([]c06Oper, []keytypes.WrappedConsKey) {
 	out := []c06Oper{}
 	var keys []keytypes.WrappedConsKey
 	for _, a := range addrs {
-		o := c06Oper{Addr: hex.EncodeToString(a.Bytes()), Active: "0", Total: "0"}
+		o := c06Oper{Addr: hex.EncodeToString(a.Bytes()), Active: "0", Total: "0", Self: "0"}
 		found, wk, err := k.GetOperatorConsKeyForChainID(ctx, a, h.chainID)
 		if err == nil && found && wk != nil {
 			o.HasKey = true
@@ -242,6 +253,7 @@ func (h *c06H) opers(ctx sdk.Context) ([]c06Oper, []keytypes.WrappedConsKey) {
 			o.HasUSD = true
 			o.Active = u.ActiveUSDValue.BigInt().String()
 			o.Total = u.TotalUSDValue.BigInt().String()
+			o.Self = u.SelfUSDValue.BigInt().String()
 		}
 		out = append(out, o)
 	}
@@ -307,6 +319,11 @@ func (h *c06H) beginNext(d time.Duration) (ok bool) {
 		}
 		n1, _ := h.epochNow()
 		h.ended = started && n1 > n0
+		h.usdDirty = false
+		h.hookMin = "-1"
+		if h.ended {
+			h.hookMin = h.app.StakingKeeper.GetMinSelfDelegation(h.ctx).String()
+		}
 	}()
 	if h.real {
 		e := h.env
@@ -361,6 +378,16 @@ func (h *c06H) step(ops []string) c06Step {
 	s := c06Step{Ops: ops, EpochEnded: h.ended}
 	s.Marker = sk.IsEpochEnd(ctx)
 	s.Max = int64(sk.GetMaxValidators(ctx))
+	s.MinSelf = sk.GetMinSelfDelegation(ctx).String()
+	s.AvsMinSelf = -1
+	if ai, err := h.app.AVSManagerKeeper.GetAVSInfo(ctx, h.avsAddr); err == nil && ai != nil && ai.Info != nil {
+		s.AvsMinSelf = int64(ai.Info.MinSelfDelegation)
+	}
+	s.HookMin = h.hookMin
+	if s.HookMin == "" {
+		s.HookMin = "-1"
+	}
+	s.Fresh = h.ended && !h.usdDirty
 	s.Prev = h.vals(ctx)
 	s.PrevTotal = sk.GetLastTotalPower(ctx).String()
 	var keys []keytypes.WrappedConsKey
@@ -499,6 +526,9 @@ func (h *c06H) opJail(i int, jail bool) string {
 }
 
 func (h *c06H) opSetMax(m uint32) string {
+	if h.rng.Intn(2) == 0 {
+		return h.opUpdateParams(func(p *dogfoodtypes.Params) { p.MaxValidators = m })
+	}
 	return h.atomic(func(ctx sdk.Context) error {
 		p := h.app.StakingKeeper.GetDogfoodParams(ctx)
 		p.MaxValidators = m
@@ -510,8 +540,53 @@ func (h *c06H) opSetMax(m uint32) string {
 	})
 }
 
+// the real dogfood MsgUpdateParams handler (authority = gov module): writes the params AND updates the dogfood AVS record
+func (h *c06H) opUpdateParams(mod func(p *dogfoodtypes.Params)) string {
+	return h.atomic(func(ctx sdk.Context) error {
+		p := h.app.StakingKeeper.GetDogfoodParams(ctx)
+		mod(&p)
+		_, err := h.app.StakingKeeper.UpdateParams(sdk.WrapSDKContext(ctx), &dogfoodtypes.MsgUpdateParams{Authority: h.authority, Params: p})
+		return err
+	})
+}
+
+// self delegation (whole USD, rounded down) of operator i as the ledger has it now
+func (h *c06H) selfUSD(i int) int64 {
+	assets := h.app.StakingKeeper.GetAssetIDs(h.ctx)
+	am := map[string]interface{}{}
+	for _, a := range assets {
+		am[a] = nil
+	}
+	dec, err1 := h.app.AssetsKeeper.GetAssetsDecimal(h.ctx, am)
+	pr, err2 := h.app.OracleKeeper.GetMultipleAssetsPrices(h.ctx, am)
+	if err1 != nil || err2 != nil {
+		return 100
+	}
+	info, err := h.app.OperatorKeeper.CalculateUSDValueForOperator(h.ctx, false, h.operators[i].String(), am, dec, pr)
+	if err != nil {
+		return 100
+	}
+	return info.SelfStaking.TruncateInt64()
+}
+
+// MinSelfDelegation through MsgUpdateParams: pool values, or exactly on / one around an operator's self delegation
+func (h *c06H) opSetMinSelf() string {
+	r := h.rng
+	v := []int64{0, 1, 99, 100, 101, 119, 120, 121, 150, 151, 199, 200, 201, 300, 301, 1000}[r.Intn(16)]
+	if r.Intn(2) == 0 {
+		v = h.selfUSD(r.Intn(len(h.operators))) + int64(r.Intn(3)) - 1
+		if v < 0 {
+			v = 0
+		}
+	}
+	res := h.opUpdateParams(func(p *dogfoodtypes.Params) { p.MinSelfDelegation = sdkmath.NewInt(v) })
+	h.w.Count("op/setminself/" + res)
+	return fmt.Sprintf("updateparams(minself=%d)=%s", v, res)
+}
+
 // direct write of the USD value record of an opted-in operator (only meaningful after the epoch hook ran)
 func (h *c06H) opSetUSD(i int, self, total, active sdkmath.LegacyDec) string {
+	h.usdDirty = true
 	return h.atomic(func(ctx sdk.Context) error {
 		if !h.app.OperatorKeeper.IsOptedIn(ctx, h.operators[i].String(), h.avsAddr) {
 			return fmt.Errorf("not opted in")
@@ -555,6 +630,25 @@ func (h *c06H) randOp(epochEnd bool) string {
 	n := len(h.operators)
 	i := r.Intn(n)
 	x := r.Intn(100)
+	if h.paramBias {
+		epochEnd = false
+		switch r.Intn(3) {
+		case 0:
+			return h.opSetMinSelf()
+		case 1:
+			// move an operator's self delegation across / onto the configured minimum
+			amt := []int64{1000000, 20000000, 21000000, 50000000, 51000000, 100000000}[r.Intn(6)]
+			if r.Intn(2) == 0 {
+				r1 := h.opDeposit(h.selfStaker(i), amt)
+				r2 := h.opDelegate(h.selfStaker(i), i, amt)
+				h.w.Count("op/delegate/" + r2)
+				return fmt.Sprintf("deposit+delegate(self,%d,%d)=%s,%s", i, amt, r1, r2)
+			}
+			res := h.opUndelegate(h.selfStaker(i), i, amt)
+			h.w.Count("op/undelegate/" + res)
+			return fmt.Sprintf("undelegate(self,%d,%d)=%s", i, amt, res)
+		}
+	}
 	if !epochEnd {
 		x = 48 + r.Intn(52) // no USD writes outside epoch-end blocks: spread over the other kinds as weighted below
 	}
@@ -592,7 +686,9 @@ func (h *c06H) randOp(epochEnd bool) string {
 		return fmt.Sprintf("setusd(%d,%s,%s)=%s", i, tot, act, res)
 	}
 	switch {
-	case x < 62:
+	case x >= 58 && x < 62:
+		return h.opSetMinSelf()
+	case x < 58:
 		m := []uint32{1, 2, 3, 4, 5, 6, 100}[r.Intn(7)]
 		res := h.opSetMax(m)
 		h.w.Count("op/setmax/" + res)
@@ -704,6 +800,12 @@ func (h *c06H) emit(mode string, steps []c06Step, tags []string) {
 	c := c06Case{Mode: mode, Steps: steps, Tags: tags}
 	nEnd, nUpd := 0, 0
 	for _, s := range steps {
+		if s.Fresh {
+			h.w.Count("step/epoch-end/usd-values-as-the-hook-left-them")
+		}
+		if s.MinSelf != fmt.Sprint(s.AvsMinSelf) {
+			h.w.Count("step/avs-min-self-differs-from-params")
+		}
 		if s.EpochEnded != s.Marker {
 			h.w.Count("step/marker-differs-from-epoch-clock")
 		}
@@ -912,6 +1014,7 @@ func runC06(a *Args) error {
 	})
 	h := &c06H{env: env, app: env.App, rng: rng, w: NewCaseWriter(a.Out), epochID: "hour", operators: env.Operators}
 	defer h.w.Close()
+	h.authority = authtypes.NewModuleAddress(govtypes.ModuleName).String()
 	h.chainID = avstypes.ChainIDWithoutRevision(env.ChainID)
 	h.avsAddr = strings.ToLower(avstypes.GenerateAVSAddr(h.chainID))
 	if ok, addr := env.App.AVSManagerKeeper.IsAVSByChainID(env.Ctx, h.chainID); ok {
@@ -1001,7 +1104,23 @@ func runC06(a *Args) error {
 		h.emit("cached", steps, []string{"large-set"})
 		h.w.Count("case/large-set")
 	}
-	nCached := a.N - nChain - nDirected - nLarge
+	// the params family: MinSelfDelegation through the real MsgUpdateParams handler, epoch ends priced by the real operator hook
+	nParams := 8 + a.N/30
+	for i := 0; i < nParams; i++ {
+		cc, _ := base.CacheContext()
+		h.real = false
+		h.ctx = cc
+		h.height = env.Header.Height
+		h.now = env.Header.Time
+		h.nonce = 7000
+		h.dead = false
+		h.paramBias = true
+		steps := h.history(3 + rng.Intn(2))
+		h.paramBias = false
+		h.emit("cached", steps, []string{"params"})
+		h.w.Count("case/params")
+	}
+	nCached := a.N - nChain - nDirected - nLarge - nParams
 	for i := 0; i < nCached; i++ {
 		cc, _ := base.CacheContext()
 		h.real = false
